@@ -160,7 +160,7 @@ def describe_script(p):
     fl = ";".join(f"{f['kind']}@{f['stage']}/{f['where']}/{f['at']}/i{f['i']}" for f in p.get("flog", []))
     return (f"k={c['k']} T={c['solveT']} skip={c['skipT']} out={c['out']} foreign={'+'.join(c.get('foreign', [])) or '-'}"
             f" thermal_dts={p.get('tdts', [])} dts={p.get('simdts', [])} faults=[{fl}] probes={p.get('probes', 0)}"
-            f" screening={p.get('screening', False)}")
+            f" screening={p.get('screening', False)}" + (f" prior-run-same-path={p['prior']}" if p.get('prior') else ""))
 
 
 def fault_class(p):
